@@ -12,7 +12,8 @@ package responder
 // neither an answer nor a logged rejection within the (generous) time-out is inconclusive
 // (no_answer_unexplained) — never a violation and never counted as a pass.
 //
-// Sub-checks: exchange (rapid), dec_responder (the responder's datagram path on arbitrary bytes;
+// Sub-checks: exchange (rapid, one exchange at a time), exchange_concurrent (several requesters whose
+// queries reach the responder back to back; zz_verif_c15_concurrent_test.go), dec_responder (the responder's datagram path on arbitrary bytes;
 // backs FuzzVerif_C15_responder).
 
 import (
@@ -111,9 +112,12 @@ var c15ResponseRejectLogs = []string{"ERR: Response UDP payload length", "AddFor
 // c15Tap wraps the responder's socket.
 type c15Tap struct {
 	net.PacketConn
-	mu  sync.Mutex
-	in  []string // source address of every datagram read
-	out []string // destination address of every datagram written
+	mu   sync.Mutex
+	in   []string // source address of every datagram read
+	out  []string // destination address of every datagram written
+	hold bool     // while set, a datagram that was read is not handed to the responder yet (see setHold)
+	held int      // datagrams currently kept back
+	gate *sync.Cond
 }
 
 func (t *c15Tap) ReadFrom(p []byte) (int, net.Addr, error) {
@@ -121,10 +125,37 @@ func (t *c15Tap) ReadFrom(p []byte) (int, net.Addr, error) {
 	if err == nil {
 		t.mu.Lock()
 		t.in = append(t.in, a.String())
+		if t.hold && t.gate != nil {
+			t.held++
+			c15Poke()
+			for t.hold {
+				t.gate.Wait()
+			}
+			t.held--
+		}
 		t.mu.Unlock()
 		c15Poke()
 	}
 	return n, a, err
+}
+
+// setHold(true) makes the responder's read loop stall with the next datagram in its hands, so that
+// everything sent meanwhile queues up in the socket buffer; setHold(false) lets it run again: the
+// read loop then finds all queued datagrams immediately, back to back.
+func (t *c15Tap) setHold(h bool) {
+	t.mu.Lock()
+	if t.gate == nil {
+		t.gate = sync.NewCond(&t.mu)
+	}
+	t.hold = h
+	t.mu.Unlock()
+	t.gate.Broadcast()
+}
+
+func (t *c15Tap) snapshot() (in, out []string, held int) {
+	t.mu.Lock()
+	defer t.mu.Unlock()
+	return append([]string(nil), t.in...), append([]string(nil), t.out...), t.held
 }
 
 func (t *c15Tap) WriteTo(p []byte, a net.Addr) (int, error) {
@@ -177,6 +208,7 @@ type c15Server struct {
 	calls  [][]byte
 	ret    []byte
 	retErr bool
+	answer func([]byte) []byte // if set, the response is computed from the request (concurrent sub-check)
 }
 
 func (s *c15Server) callback(b []byte) ([]byte, error) {
@@ -187,6 +219,9 @@ func (s *c15Server) callback(b []byte) ([]byte, error) {
 	if s.retErr {
 		return nil, fmt.Errorf(c15RefuseText)
 	}
+	if s.answer != nil {
+		return s.answer(b), nil
+	}
 	return append([]byte{}, s.ret...), nil
 }
 
@@ -196,7 +231,8 @@ func (s *c15Server) callback(b []byte) ([]byte, error) {
 type c15Conn struct {
 	net.Conn
 	closed atomic.Bool
-	writes atomic.Int32
+	writes atomic.Int32 // Write calls begun
+	wrote  atomic.Int32 // Write calls whose datagram has been handed to the kernel
 }
 
 func (c *c15Conn) Read(b []byte) (int, error) {
@@ -210,7 +246,10 @@ func (c *c15Conn) Read(b []byte) (int, error) {
 func (c *c15Conn) Write(b []byte) (int, error) {
 	c.writes.Add(1) // counted before the datagram leaves (see c15Tap.WriteTo)
 	c15Poke()
-	return c.Conn.Write(b)
+	n, err := c.Conn.Write(b)
+	c.wrote.Add(1)
+	c15Poke()
+	return n, err
 }
 
 func (c *c15Conn) Close() error {
@@ -280,16 +319,11 @@ func c15GetEnv() (*c15Env, error) {
 		log.SetFlags(0)
 		log.SetOutput(e.logs)
 		for i, d := range c15Domains {
-			priv := c15h.Expand(uint64(vh.Seed())*1000+uint64(i)+2, 32)
-			r, err := NewDnsResponder(d[0], "127.0.0.1:0", priv)
+			s, err := c15NewServer(d[0], d[1], uint64(i))
 			if err != nil {
-				c15EnvErr = fmt.Errorf("NewDnsResponder(%q): %v", d[0], err)
+				c15EnvErr = err
 				return
 			}
-			tap := &c15Tap{PacketConn: r.transport}
-			r.transport = tap
-			s := &c15Server{domain: d[0], reqDomain: d[1], r: r, tap: tap, addr: tap.LocalAddr().String(), pub: encryption.PubkeyFromPrivkey(priv)}
-			go func() { _ = r.RecvAndRespond(s.callback) }()
 			e.servers = append(e.servers, s)
 			e.clients = append(e.clients, nil)
 		}
@@ -298,11 +332,34 @@ func c15GetEnv() (*c15Env, error) {
 	return c15TheEnv, c15EnvErr
 }
 
+// c15NewServer starts a real Responder on a loopback port with the harness' tap on its socket.
+func c15NewServer(domain, reqDomain string, keyIndex uint64) (*c15Server, error) {
+	priv := c15h.Expand(uint64(vh.Seed())*1000+keyIndex+2, 32)
+	r, err := NewDnsResponder(domain, "127.0.0.1:0", priv)
+	if err != nil {
+		return nil, fmt.Errorf("NewDnsResponder(%q): %v", domain, err)
+	}
+	tap := &c15Tap{PacketConn: r.transport}
+	r.transport = tap
+	s := &c15Server{domain: domain, reqDomain: reqDomain, r: r, tap: tap, addr: tap.LocalAddr().String(), pub: encryption.PubkeyFromPrivkey(priv)}
+	go func() { _ = r.RecvAndRespond(s.callback) }()
+	return s, nil
+}
+
 func (e *c15Env) client(i int) (*c15Client, error) {
 	if e.clients[i] != nil {
 		return e.clients[i], nil
 	}
-	s := e.servers[i]
+	cl, err := c15NewClient(e.servers[i])
+	if err != nil {
+		return nil, err
+	}
+	e.clients[i] = cl
+	return cl, nil
+}
+
+// c15NewClient makes a real Requester (UDP) for the server, dialling through c15Conn.
+func c15NewClient(s *c15Server) (*c15Client, error) {
 	cl := &c15Client{}
 	req, err := requester.NewRequester(&requester.Config{
 		TransportMethod: requester.UDP,
@@ -325,15 +382,10 @@ func (e *c15Env) client(i int) (*c15Client, error) {
 		return nil, err
 	}
 	cl.req = req
-	e.clients[i] = cl
 	return cl, nil
 }
 
-func (e *c15Env) drop(i int) {
-	cl := e.clients[i]
-	if cl == nil {
-		return
-	}
+func (cl *c15Client) shut() {
 	if cl.used {
 		// Requester.Close dereferences its transport, which is nil if dialling failed
 		c15h.Catch(func() { _ = cl.req.Close() })
@@ -341,7 +393,13 @@ func (e *c15Env) drop(i int) {
 	if c := cl.socket(); c != nil {
 		_ = c.Close()
 	}
-	e.clients[i] = nil
+}
+
+func (e *c15Env) drop(i int) {
+	if cl := e.clients[i]; cl != nil {
+		cl.shut()
+		e.clients[i] = nil
+	}
 }
 
 // ---- reference capacities (used to bias generation and to label classes, not as oracle) ---------
